@@ -842,8 +842,11 @@ def check_nexthop_padding(prog, r):
             for x, ll in g[1]:
                 if show(x, 40).endswith(".0") and all(str(v).isdigit() for v in ll):
                     excluded |= {int(v) for v in ll}
-        if g[0] == "field" and "else" in l:
-            pass
+    # the same set as the listed arms of a `match *family {..}` whose catch-all arm pads
+    from ..cfg import guards_of
+    for br, labels in guards_of(fv, pads[0], brs):
+        if "else" in labels and show(br.expr, 40).endswith(".0") and br.cases and all(isinstance(v, int) for v, _ in br.cases):
+            excluded |= {v for v, _ in br.cases}
     miss = sorted(set(AS_IS_NEXTHOP) - excluded)
     if not excluded:
         r.unanalysable("mp_reach_encode: the families excluded from next-hop padding are not tested in a form this rule reads (matches! on the family)", fv.loc(pads[0]))
